@@ -250,7 +250,12 @@ class Parser:
         matching_patterns = []
         for pattern in patterns:
             # use a matching capture to get the regex performance
-            mo = re.search(f'({pattern})', name)
+            try:
+                mo = re.search(f'({pattern})', name)
+            except re.error as exc:
+                # the pattern read from the rules file is not a valid regular expression
+                self.logger.error(f'Parser.get_best_pattern: invalid pattern="{pattern}" ignored - {exc}')
+                continue
             if mo:
                 matching_patterns.append((pattern, mo.group()))
         self.logger.trace(f'Parser.get_best_pattern: found patterns={patterns} for {name}')
